@@ -193,6 +193,11 @@ def structures():
             zs[i] = 19
     nk.set_atomic_numbers(zs)
     out.append(("rock salt with an ordered patch of K on Na sites", nk))
+    from ase.build import fcc100 as _f100
+    zs_ = _f100("Cu", size=(3, 3, 2), vacuum=None)
+    cz = np.array(zs_.get_cell()); cz[2] = 0.0
+    zs_.set_cell(cz); zs_.set_pbc([True, True, False])
+    out.append(("slab with a zero cell vector along its non-periodic direction", zs_))
     out.append(("degenerate cell", Atoms("H2O", positions=[[0, 0, 0], [0.9, 0, 0], [0, 0.9, 0]], cell=[0, 0, 0], pbc=False)))
     return out
 
